@@ -50,3 +50,28 @@ Section Build.
     | _ => mkBT w0 BError None
     end.
 End Build.
+
+(* ---- executable instance for the correspondence check ----------------------------------------
+   The building blocks replay what was observed in one invocation of the real run::build (a
+   "tape"), so that [build] itself - the part of run.rs that sits above Work::run and that the
+   scheduler acceptor does not see - is compared with the code on every observed invocation.
+   Worlds are stage numbers (0 before the regeneration phase, 1 after it, 2 after the main phase);
+   loaded states are [false] (first load) / [true] (reload). *)
+Record tape := mkTape {
+  tp_load0 : bool;                (* did load::read succeed on the initial world *)
+  tp_regen : option bool;         (* Work::run of the regeneration phase: Ok(success) / None = Err *)
+  tp_tasks1 : nat;                (* commands that completed successfully in it *)
+  tp_load1 : bool;                (* did the reload succeed (consulted only if it happens) *)
+  tp_main : option bool;          (* target selection + Work::run of the main phase *)
+  tp_tasks2 : nat }.
+
+Definition tape_load (tp : tape) (w : nat) : outcome bool :=
+  match w with
+  | O => if tp_load0 tp then Ok false else Err []
+  | S _ => if tp_load1 tp then Ok true else Err []
+  end.
+Definition tape_regen (tp : tape) (g : bool) (w : nat) : nat * option bool * nat := (1, tp_regen tp, tp_tasks1 tp).
+Definition tape_main (tp : tape) (g : bool) (reuse : bool) (w : nat) : nat * option bool * nat := (2, tp_main tp, tp_tasks2 tp).
+
+Definition build_tape (tp : tape) : build_trace (W:=nat) (G:=bool) :=
+  build (tape_load tp) (tape_regen tp) (tape_main tp) 0.
